@@ -9,7 +9,7 @@
 (*       authed, alive, mode   is_authenticated() / Transport.active / which handler    *)
 (*                             object is installed, sampled when the message is done]]   *)
 (* The step is total.  The variables of ServerAuth are set from what the CODE did      *)
-(* (authUser, expect and failCount - the code's private counter - are ghosts kept by   *)
+(* (authUser, expect, offer and failCount - the code's private counter - are ghosts kept by   *)
 (* the specification's own rules; `failed` counts the FAILURE replies really sent)     *)
 (* and the invariants / step properties of ServerAuth are evaluated on them:           *)
 (*   bad' = names of the ones that fail (P_ = clauses of C14 / C16).                   *)
@@ -26,7 +26,7 @@ S(c, name) == IF c THEN {} ELSE {name}
 TInit == /\ tid \in 1..Len(Batch) /\ l = 1 /\ bad = {}
          /\ cfg = R.opts
          /\ authUser = "" /\ failCount = 0 /\ authenticated = FALSE /\ alive = TRUE
-         /\ mode = "plain" /\ expect = "any" /\ req = Blank /\ cbs = <<>> /\ out = <<>>
+         /\ mode = "plain" /\ expect = "any" /\ offer = FALSE /\ req = Blank /\ cbs = <<>> /\ out = <<>>
          /\ grantedBy = Nobody /\ failed = 0
 
 \* without a callable GSS table the pinned tree dies on every message; a tree with a repaired dispatch decides
@@ -38,7 +38,7 @@ Conforms(m) == Agrees(m) \/ (mode = "gss" /\ ~cfg.bound /\ Agrees(Handle([cfg EX
 TStep(Model) ==
   /\ l' = l + 1 /\ tid' = tid
   /\ cfg' = cfg /\ req' = E.req
-  /\ authUser' = Model.st.authUser /\ expect' = Model.st.expect
+  /\ authUser' = Model.st.authUser /\ expect' = Model.st.expect /\ offer' = Model.st.offer
   /\ failCount' = Model.st.failCount /\ failed' = failed + NFail(E.out)
   /\ authenticated' = E.authed /\ alive' = E.alive /\ mode' = E.mode
   /\ cbs' = E.cbs /\ out' = E.out
